@@ -20,7 +20,7 @@ namespace GitAi.Sys
 /-- ghost state next to the model state -/
 structure RSpec where
   sp : Spec
-  stash : List (List (Nat × Nat)) := []
+  stash : List (List Nat × List (Nat × Nat)) := []
 
 def rspecStep (r : RSpec) (op : ROp) : RSpec :=
   match op with
@@ -32,7 +32,7 @@ def rspecStep (r : RSpec) (op : ROp) : RSpec :=
 def rspecRun (r : RSpec) (ops : List ROp) : RSpec := ops.foldl rspecStep r
 
 /-- what each operation needs. Stash push/pop are not part of the general induction (see
-    `stash_roundtrip_partial` and `witness_stash_upstream_above`). -/
+    `stash_roundtrip_partial` and `regression_stash_upstream_above`). -/
 def ValidROp (root : List Nat) (r : RSpec) : ROp → Prop
   | .base .commit => CommitOK3 r.sp
   | .base o => ValidOp2 r.sp o
@@ -158,22 +158,26 @@ theorem aborted_is_identity (r : RState) : rstep r .aborted = r := rfl
 /-! ## 3. Stash -/
 
 /-- **stash round trip (partial).** Push, then pop onto the same working-tree content: the combined
-    invariant is restored, so the next commit credits the popped AI lines. The full statement (any
-    changes to HEAD between push and pop) is false for the current code: see the witness below. -/
-theorem stash_roundtrip_partial (root : List Nat) (sp : Spec) (h : RInv root sp) (stk : List (List (Nat × Nat))) :
+    invariant is restored, so the next commit credits the popped AI lines. With changes to HEAD
+    between push and pop the popped claims are carried over through the stashed content (see the
+    regression example below); a general theorem for that case is not proved. -/
+theorem stash_roundtrip_partial (root : List Nat) (sp : Spec) (h : RInv root sp)
+    (stk : List (List Nat × List (Nat × Nat))) :
     let r := stashPop sp.st.work (stashPush ⟨sp.st, stk⟩)
     RInv root ⟨r.st, sp.g, sp.seen⟩ ∧ r.st.work = sp.st.work ∧ r.stash = stk :=
   h.stash_roundtrip stk
 
-/-- **O4 witness.** An agent (session 1) inserts line `9`; `git stash`; a person commits a new line
+/-- **O4, repaired.** An agent (session 1) inserts line `9`; `git stash`; a person commits a new line
     `7` at the top of the file; `git stash pop`; commit. The stash stored "line 3 is session 1's";
-    after the insertion above, line 3 is an old line and the AI line is line 4: blame reports the
-    surviving AI line `9` as human. -/
-theorem witness_stash_upstream_above :
+    INITIAL now records the stashed content with it, so the line number is carried over through
+    content: blame reports the surviving AI line `9` (now line 4) as session 1's. Before the repair
+    (`fix:` INITIAL records the content its line numbers refer to) it was reported as human. -/
+theorem regression_stash_upstream_above :
     let r := rrun ⟨{ head := [1, 2, 3], index := [1, 2, 3], work := [1, 2, 3] }, []⟩
       [.base (.aiEdit 1 [1, 2, 9, 3]), .stashPush, .base (.humanEdit [7, 1, 2, 3]), .base .stageAll, .base .commit,
        .stashPop [7, 1, 2, 9, 3], .base .stageAll, .base .commit]
-    r.st.head = [7, 1, 2, 9, 3] ∧ blame r.st.log r.st.notes 9 = none := by decide
+    r.st.head = [7, 1, 2, 9, 3] ∧ r.st.head.map (blame r.st.log r.st.notes) = [none, none, none, some 1, none] := by
+  decide
 
 /-- the same history without the upstream commit keeps the line (non-vacuity of the round trip) -/
 example :
@@ -217,5 +221,5 @@ end GitAi.Sys
 #print axioms GitAi.Sys.replay_credit_from_source
 #print axioms GitAi.Sys.aborted_is_identity
 #print axioms GitAi.Sys.stash_roundtrip_partial
-#print axioms GitAi.Sys.witness_stash_upstream_above
+#print axioms GitAi.Sys.regression_stash_upstream_above
 #print axioms GitAi.Sys.rspecRun_st
